@@ -179,10 +179,11 @@ CLAIMS = {'C03': {'text': 'Hazards of the geometry/container layer are enumerate
                  'position in the same way (all accumulate or all multiply by the index); the 15 '
                  'dynamic entry points do no pixel processing of their own; inside kernels no '
                  'align_to with a stricter alignment than the row element and no pointer '
-                 'inspection (address independence). Does NOT decide that the specialised '
-                 'overrides (iter_rows_with_step, slice splits) equal the trait defaults, nor any '
-                 'equality between two runs; row-end over-reads are decided by the load-width rule '
-                 '(C13.row-end).',
+                 'inspection (address independence). The slice-based splits cut their parts at '
+                 'offsets that include start_row, for every container kind. Does NOT decide that '
+                 'the specialised overrides (iter_rows_with_step, slice splits) equal the trait '
+                 'defaults, nor any equality between two runs; row-end over-reads are decided by '
+                 'the load-width rule (C13.row-end).',
          'note': 'Parametricity argument: Rust generics without specialisation/TypeId; the unsafe '
                  'trait contract (rows >= width) is assumed for user views.',
          'technique': 'static analysis: signature scan of the type-checked program, structural '
@@ -198,10 +199,12 @@ CLAIMS = {'C03': {'text': 'Hazards of the geometry/container layer are enumerate
                  'confined to the default mutable splits; all arithmetic asserts in split code '
                  'classified. The split loops run num_parts iterations (any equivalent range) with '
                  'one push each; products of caller-controlled values on the way to the part '
-                 'boundaries do not wrap (witness search on the guards). Does NOT decide that part '
-                 'sizes differ by at most one and sum to the band (loop-carried arithmetic); every '
-                 'part a split builds itself is placed at a running sum of the previous sizes '
-                 '(index times own size is a violation when sizes differ).',
+                 'boundaries do not wrap (witness search on the guards). Part slices start at '
+                 'start_row (lower-bound analysis of the slicing steps); re-wrapping closures are '
+                 'checked through their captured locals. Does NOT decide that part sizes differ by '
+                 'at most one and sum to the band (loop-carried arithmetic); every part a split '
+                 'builds itself is placed at a running sum of the previous sizes (index times own '
+                 'size is a violation when sizes differ).',
          'note': 'Exact-tiling arithmetic inside the loops is listed as UNDECIDED obligations.',
          'technique': 'static analysis: guard-fact entailment on Some-return paths, loop structure '
                       '(dominators/natural loops), argument-role comparison across wrappers',
@@ -220,7 +223,8 @@ CLAIMS = {'C03': {'text': 'Hazards of the geometry/container layer are enumerate
                  'these decisions are inlined one level. Bit equality itself is not decided. With '
                  'fit_into_destination and equal aspect ratios the fitted box is the whole source '
                  'exactly (the approximately-equal branch; fl(fl(w/h)*h) is one ulp off w for '
-                 'about 8 % of the sizes).',
+                 'about 8 % of the sizes). A copy that is spread over threads applies the crop '
+                 'offset once (split) and not again inside the band closure.',
          'note': 'Facts are branch conditions on dominating edges (no path enumeration).',
          'technique': 'static analysis: edge-dominance facts + must-write summaries on MIR'},
  'C01': {'text': 'Decided on all paths: the geometry formulas of precompute_coefficients are, as '
@@ -240,8 +244,9 @@ CLAIMS = {'C03': {'text': 'Hazards of the geometry/container layer are enumerate
                  'head-room of the accumulator (21 / 45 bits): a search capped at or below the '
                  'width of the coefficient type loses the adaptation to the small weights of wide '
                  'windows. The rounding terms that reach every final shift total exactly half an '
-                 'output unit (round-budget, as under C02 / C18). The numerical error bound of the '
-                 'property is NOT decided.',
+                 'output unit (round-budget, as under C02 / C18). Every floating-point multiply / '
+                 'add of the f32 kernels is double precision (one rounding to f32 at the end). The '
+                 'numerical error bound of the property is NOT decided.',
          'note': 'Kind sources are getter/field/parameter names (width/left/col vs '
                  'height/top/row).',
          'technique': 'static analysis: polynomial normal form of MIR expressions compared with '
@@ -257,9 +262,11 @@ CLAIMS = {'C03': {'text': 'Hazards of the geometry/container layer are enumerate
                  'width-1 of the view whose rows are read (a bound that depends on the crop box is '
                  'a violation); the stored pixel is a loaded pixel with no arithmetic; no alpha '
                  'code is reachable. resample_nearest takes no state from the Resizer except '
-                 'through a cache whose key covers every input of the cached value. Does NOT '
-                 'decide floating-point accumulation error of the row position nor that the two '
-                 'iter_rows_with_step implementations skip rows identically.',
+                 'through a cache whose key covers every input of the cached value. Row / column '
+                 'index arithmetic of the Nearest path (including the closures of '
+                 'iter_rows_with_step) cannot wrap (witness search through closure captures). Does '
+                 'NOT decide floating-point accumulation error of the row position nor that the '
+                 'two iter_rows_with_step implementations skip rows identically.',
          'note': 'Clamp adequacy is a stated-belief rule (a bound equal to the row length is '
                  "reachable by the author's own reckoning).",
          'technique': 'static analysis: polynomial normal form of MIR expressions + kind inference '
@@ -274,8 +281,10 @@ CLAIMS = {'C03': {'text': 'Hazards of the geometry/container layer are enumerate
                  'w, dst h) in order.; a crop dimension computed from the ratios is assigned only '
                  'under a strict ratio comparison (or after the approximately-equal branch) or '
                  'clamped, so fl(ratio*height) cannot exceed the source width. No integer '
-                 'arithmetic on the way to the fitted box can wrap. Does NOT decide aspect '
-                 'accuracy nor sizes beyond 2^26 per side.',
+                 'arithmetic on the way to the fitted box can wrap. left = (width - crop_width) * '
+                 'centering.0 and top = (height - crop_height) * centering.1 on every path, also '
+                 'through a helper and correlated branches. Does NOT decide aspect accuracy nor '
+                 'sizes beyond 2^26 per side.',
          'note': 'Local names crop_width/crop_height/centering are anchors (CHECK-ERROR/UNDECIDED '
                  'if renamed).',
          'technique': 'static analysis: polynomial normal form + data-dependence and branch-wise '
@@ -292,8 +301,10 @@ CLAIMS = {'C03': {'text': 'Hazards of the geometry/container layer are enumerate
                  '(jump <= 1e-6; > 2 16-bit steps is a violation) and the backward function undoes '
                  'the forward one at the breakpoints (interval evaluation at constant points). '
                  'Every Ok of PixelComponentMapper::map that does not follow a map_image call '
-                 'comes after the comparison of the dimensions. Does NOT decide that every entry '
-                 'equals the rounded transfer function nor the 8->16->8 round trip as such.',
+                 'comes after the comparison of the dimensions. All eight tables are built by '
+                 'MappingTable::new from the transfer function (none derived from another table by '
+                 'a depth conversion). Does NOT decide that every entry equals the rounded '
+                 'transfer function nor the 8->16->8 round trip as such.',
          'note': 'powf/exp/round/clamp transfer functions are part of the trusted tables; const '
                  'generic SIZE is assumed >= 2.',
          'technique': 'static analysis: abstract interpretation (monotonicity x interval, input '
@@ -303,11 +314,12 @@ CLAIMS = {'C03': {'text': 'Hazards of the geometry/container layer are enumerate
                  'by constants with sign), including definite non-monotonicity (division of the '
                  'negative half by a negative constant: two known findings; wrapping narrowings); '
                  'the typed entry point writes only after both dimension equalities; W4 '
-                 '(thorough): different component counts do not type-check. Endpoint values and '
-                 'widening round trips are NOT decided; each widening round trip (u8->u16, '
-                 'u8->i32, u8->f32, u16->i32, u16->f32 and back) is the identity on the whole '
-                 'narrow range, decided from the composed form floor((a*v+b)/d) at the ends of the '
-                 'range.',
+                 '(thorough): different component counts do not type-check. A conversion whose '
+                 'computed value leaves its integer output type (an unchecked shift) is reported '
+                 'as wrapping. Endpoint values and widening round trips are NOT decided; each '
+                 'widening round trip (u8->u16, u8->i32, u8->f32, u16->i32, u16->f32 and back) is '
+                 'the identity on the whole narrow range, decided from the composed form '
+                 'floor((a*v+b)/d) at the ends of the range.',
          'note': "Verdict 'decreasing' needs a non-degenerate output interval on a non-degenerate "
                  'input piece.',
          'technique': 'static analysis: abstract interpretation (monotonicity x interval) on MIR + '
@@ -320,9 +332,10 @@ CLAIMS = {'C03': {'text': 'Hazards of the geometry/container layer are enumerate
                  '8/16-bit SIMD convolution kernels passes a saturating narrowing of the component '
                  'width (all back-ends in the thorough tier).; the rounding term that reaches '
                  'every final shift / clip is exactly 1 << (precision-1) in every lane (x86: 121 '
-                 'sinks, NEON 68, SIMD128 65), so rounding never adds more than half a unit. '
-                 'Accumulator wrap and monotonicity of the shift/round pipeline on runtime values '
-                 'are NOT decided.',
+                 'sinks, NEON 68, SIMD128 65), so rounding never adds more than half a unit. The '
+                 'f32 kernels accumulate in f64 (single-precision accumulation over the window '
+                 'overshoots by many ulp). Accumulator wrap and monotonicity of the shift/round '
+                 'pipeline on runtime values are NOT decided.',
          'note': 'sin is bounded by [0,1] on [0,pi], cos by [-1,1]; intrinsic tables in '
                  'fircheck/engines/{deps,simd_rules}.py.',
          'technique': 'static analysis: interval evaluation of scalar kernels + data-dependence '
@@ -361,7 +374,8 @@ CLAIMS = {'C03': {'text': 'Hazards of the geometry/container layer are enumerate
                  'transparency guard, the rounded-division normal form, pixel/component '
                  'provenance, no any-lane early return. In every vertical kernel the index of '
                  'every source access depends on the column cursor src_x (the offset of the pass '
-                 'is never dropped). Bit equality of the computed pixels is NOT decided.',
+                 'is never dropped). The f32 kernels of every back-end accumulate in f64 like the '
+                 'portable code. Bit equality of the computed pixels is NOT decided.',
          'note': 'Trusted: rustc type checker/MIR, firdrv, back-end module naming '
                  '(avx2/sse4/neon/wasm32/native). Numerical equality of kernels is out of reach of '
                  'this technique.',
